@@ -533,6 +533,11 @@ func RecoverImage(t *testing.T, parent *Case, img *CrashImage, seed uint64, nest
 				r.checkTxnReads(rec, pre, viol, where)
 			}
 			checkSweep("after post-recovery commits")
+			if !nested && rng.Intn(3) > 0 {
+				// two thirds of the plain recoveries stop here (cost); recorded ones and the rest also restart cleanly
+				r.closeDB()
+				return
+			}
 			if !r.closeDB() {
 				return
 			}
